@@ -35,7 +35,7 @@ theorem inv2_init (maxSize : Nat) (ts : List Th) (hts : ∀ t ∈ ts, t.isInitia
       | ctl pc script => cases pc <;> simp_all [Th.isInitial, execPc, Th.pend]
       | _ => simp_all [Th.isInitial, execPc, Th.pend])
     simpa [initCfg] using this
-  · intro _ _ i x hx; simp [initCfg, regGet] at hx
+  · intro i x hx; simp [initCfg, regGet] at hx
   · intro hc; simp [initCfg] at hc
   · intro t ht hp
     have := hts t (by simpa [initCfg] using ht)
